@@ -52,6 +52,14 @@ def gen_rounds(seed, tier, run):
         for ax in (n, -n - 1):
             out.append(f"roll {a} l1 {lst([ax])}")
         out.append(f"roll {a} {lst([10 ** 12, -10 ** 12 + 1])} {lst([0, 0])}")
+        # more shifts than axes: every shift applies (they add up on the one axis / on the flattened order) — seeded
+        # change C12m dropped the surplus shifts; the inverse law alone cannot see that, the coordinate map can
+        for shf in ([1, 2], [2, -1], [3, 4], [1, 1, 1], [-2, 5, 1]):
+            out.append(f"roll {a} {lst(shf)} n")
+            for ax in range(-n, n):
+                out.append(f"roll {a} {lst(shf)} {lst([ax])}")
+            if n >= 2:
+                out.append(f"roll {a} {lst(shf)} {lst([0, 1])}")
         if n >= 2:
             for _ in range(4):
                 axs = [rng.randrange(-n, n) for _ in range(rng.randint(2, 3))]
